@@ -4,6 +4,7 @@ pub mod c05;
 pub mod c06;
 pub mod c07;
 pub mod c08;
+pub mod c09;
 pub mod c11;
 pub mod c20;
 pub mod smoke;
@@ -16,6 +17,7 @@ pub fn lookup(id: &str) -> Option<(&'static str, Runner)> {
         "C06" => ("C06", c06::run as Runner),
         "C07" => ("C07", c07::run as Runner),
         "C08" => ("C08", c08::run as Runner),
+        "C09" => ("C09", c09::run as Runner),
         "C11" => ("C11", c11::run as Runner),
         "SMOKE" => ("SMOKE", smoke::run as Runner),
         "C20" => ("C20", c20::run as Runner),
